@@ -147,11 +147,28 @@ func probePools() poolProbe {
 	sc := ec.NewSchemaCtx("d", &x, pb, "string")
 	test := &p.Test{IssueCode: "tc", Params: map[string]any{"k": 1}}
 
-	a, n := probeCtor(p.FreeIssue, p.NewZogIssue)
+	// an issue reaches the pool through the library's own FreeIssue OR through the public Collect helpers: a field
+	// counts as re-initialised only if the constructor resets it after EITHER way back
+	both := func(ctor func() *p.ZogIssue) ([]string, string) {
+		a1, n1 := probeCtor(p.FreeIssue, ctor)
+		a2, n2 := probeCtor(func(o *p.ZogIssue) { z.Issues.Collect(o) }, ctor)
+		in2 := map[string]bool{}
+		for _, f := range a2 {
+			in2[f] = true
+		}
+		var out []string
+		for _, f := range a1 {
+			if in2[f] {
+				out = append(out, f)
+			}
+		}
+		return out, n1 + n2
+	}
+	a, n := both(p.NewZogIssue)
 	rec("NewZogIssue", a, n)
-	a, n = probeCtor(p.FreeIssue, func() *p.ZogIssue { return sc.IssueFromTest(test, "v") })
+	a, n = both(func() *p.ZogIssue { return sc.IssueFromTest(test, "v") })
 	rec("IssueFromTest", a, n)
-	a, n = probeCtor(p.FreeIssue, func() *p.ZogIssue { return sc.IssueFromCoerce(errors.New("fresh")) })
+	a, n = both(func() *p.ZogIssue { return sc.IssueFromCoerce(errors.New("fresh")) })
 	rec("IssueFromCoerce", a, n)
 	a, n = probeCtor(func(o *p.ErrsList) { o.Free() }, p.NewErrsList)
 	rec("NewErrsList", a, n)
